@@ -446,8 +446,22 @@ def r_assembly_voxel(rule, root=None):
     f = {x["name"]: str(txt(x["e"])) for x in A.strip(val)["fields"]}
     # names for the grid depth (`let max_depth = render_config.image_size.depth();`) read as the grid depth
     names = {D} | {A.binding_name(l["pat"]) for l in A.find(fn["body"], "Let") if l.get("init") is not None and str(txt(l["init"])) == D and not (l["pat"].get("mut"))}
-    cj_sat = A.path_conjuncts(body, node) or set()
-    cj_plain = A.path_conjuncts(body, plain[0][3]) or set()
+    def canon_int(c):
+        """`(a>=b)` / `!(a<b)` -> `(b<=a)`; `!(a>=b)` / `(a<b)` -> `(a<b)` (unsigned depths)"""
+        neg = c.startswith("!")
+        c2 = c[1:] if neg else c
+        m_ = re.fullmatch(r"\((.+?)(>=|<=|<|>)(.+)\)", c2)
+        if not m_:
+            return c
+        a_, op_, b_ = m_.groups()
+        if neg:
+            op_ = {">=": "<", "<": ">=", "<=": ">", ">": "<="}[op_]
+        if op_ in (">=", ">"):
+            a_, b_, op_ = b_, a_, {">=": "<=", ">": "<"}[op_]
+        return "(%s%s%s)" % (a_, op_, b_)
+
+    cj_sat = (A.path_conjuncts(body, node) or set()) | {canon_int(c) for c in conds}
+    cj_plain = (A.path_conjuncts(body, plain[0][3]) or set()) | {canon_int(c) for c in plain[0][2]}
     cmp_ = sorted(c for c in cj_sat if re.fullmatch(r"\((.+)<=out\[index\]\.depth\)", c) and "image[" not in c)
     bound = re.fullmatch(r"\((.+)<=out\[index\]\.depth\)", cmp_[-1]).group(1) if cmp_ else None
     if cmp_ and bound in names and f.get("depth") in names and "(out[index].depth<%s)" % bound in cj_plain:
